@@ -1011,6 +1011,7 @@ class Parsent(object):
         self.closed = False
         self.errored = False
         self.error = None
+        self.trails = None  # trailers belong to one message, reused parser must not keep them
 
         while not self.started:
             if self.msg:
